@@ -384,7 +384,12 @@ def run(case, faulted, sess):
     boot = any(s.startswith("boot") for s in case["sites"])
     if any(s.startswith("gel-") for s in case["sites"]) and not boot and "hybrid-rerank" not in case["sites"] and case["seed"] % 2:
         # the graph-aware reranker healthy in both runs: what the GEL edges weigh after the turn shows in the next turn's T2 record
-        cfg = merge(cfg, {"t2": {"hybrid": {"enabled": True, "use_graph": True, "edge_threshold": 0.1, "lambda_graph": 1.0, "k_max": 128, "anchor_top_m": 8, "walk_hops": 1, "max_bonus": 10.0}}})
+        # ... with edges that lose half their weight every turn and a threshold most of them cross within two turns
+        extra_ = {"t2": {"hybrid": {"enabled": True, "use_graph": True, "edge_threshold": 0.3, "lambda_graph": 1.0, "k_max": 128, "anchor_top_m": 8, "walk_hops": 1, "max_bonus": 10.0}},
+                  "graph": {"decay": {"half_life_turns": 1, "floor": 0.0}}}
+        cfg = merge(cfg, extra_)
+        if late:
+            late_base = merge(late_base, extra_)  # the later switch-off keeps these settings
     world = copy.deepcopy(case["world"])
     if boot:
         world["gel"] = None  # a state that has not booted yet carries no GEL graph (the loader installs the containers)
